@@ -224,6 +224,24 @@ CHECKS = {
             {"harness": "c15_http", "mode": "client", "flavour": "asan", "runs": {"quick": 2500, "thorough": 250000}, "wall": {"quick": 70, "thorough": 2400}, "seed_off": 2},
         ],
     },
+    "C16": {
+        "level": "exploration",
+        "rule": ("each run = 1-3 raw client connections, each sending 1-5 (8 thorough) requests - GET/HEAD/POST/PUT/DELETE/OPTIONS, handler kinds ok / throws / empty body / 3-6 KB "
+                 "body / 201 / 404 / routed GET+auto-HEAD / 405 / auto-OPTIONS 204, bodies up to 200 bytes, Connection: close on a tenth, HTTP/1.0 or an unparsable request (no "
+                 "request-line structure, invalid method token, unsupported version, missing Host, double space) as the last one - all pipelined in one write, one by one with "
+                 "drawn gaps, or in drawn groups, to a real HttpServer whose handlers take 0-60 simulated ms, so the seeded scheduler decides which worker finishes first; the bytes "
+                 "each client reads are split by an independent reference framer and attributed to requests by the token they echo: every response well-formed and continuing the "
+                 "stream exactly (Content-Length = body), exactly one response per request up to the one that ends the connection, none answered twice, statuses as expected (throw "
+                 "=> 500), HEAD without body, 204 without length, unparsable => error status or close within 30 simulated s, after a Connection: close request the server closes and "
+                 "nothing sent after it is answered, and - judged last - responses in request order"),
+        "real": ["iora::network::HttpServer (request extraction, per-connection sequencing, dispatch, response build, close decision)", "iora::core::ThreadPool (2-8 workers)", "iora::network::Transport / TcpEngine"],
+        "stub": COMMON_STUB,
+        "assumptions": ["a reset travels behind data the closing side had already transmitted (Linux keeps received data readable); responses larger than the peer's receive window that are cut by a close-with-unread-data reset are therefore not explored",
+                        "HTTP/1.0 requests are only sent as the last request of a connection (the property does not say whether the server must close after them)"],
+        "jobs": [
+            {"harness": "c16_order", "flavour": "asan", "runs": {"quick": 12000, "thorough": 1200000}, "wall": {"quick": 35, "thorough": 2400}},
+        ],
+    },
     "C19": {
         "level": "exploration",
         "rule": ("cache job: each run = one seeded history of 6-65 steps over 6 names (three spellings of one name differing only in case, a name that extends another) x 3 types x 2 "
